@@ -7,7 +7,8 @@ Extensions of the workflow model needed by C08 (ownership of refs):
 * TAGS, and the `delete_branch` job with its real sequence of remote operations
   (`bert_e/jobs/delete_branch.py`: `do_delete(q/<v>)` if queues are on and the branch exists, then
   `git tag <archive>` + `git push origin <archive>` — a failure raises `JobFailure`, i.e. the job stops —
-  and only then `do_delete(<branch>, force=True)`).
+  and only then `do_delete(<branch>, force=True)`; when the archive tag is already there the job refuses,
+  unless the tag is on the tip of the branch: then it skips the tag and completes the deletion).
 Core Lean only.
 -/
 namespace BertE.FlowExt
@@ -95,12 +96,20 @@ inductive OpT where
   | tag (d : Dest) (c : Commit)          -- `git tag <archive of d>` at `c` + `git push origin <archive of d>`
   deriving Repr
 
-/-- `delete_branch` once its checks passed (the branch exists): the real job's remote operations, in order -/
-def planDeleteBranchT (s : Sys) (d : Dest) : List OpT :=
-  (if s.remote.has (.q d) then [OpT.br (.delete (.q d))] else []) ++
-  (match s.remote.get (.dest d) with
-   | some c => [OpT.tag d c, OpT.br (.delete (.dest d))]
-   | none => [])
+/-- `delete_branch` once its checks passed (the branch exists): the real job's remote operations, in order.
+    The job first looks at the archive tag of the branch (`tags`: the tags the clone saw):
+    * no such tag: delete `q/<v>` if it is there, tag the tip and push the tag, delete the branch;
+    * the tag is already on the tip of the branch (a previous deletion was interrupted between the push of the tag
+      and the removal of the branch): no tag operation, the deletion is completed (`archived = True`);
+    * the tag is anywhere else: `JobFailure` before anything is touched. -/
+def planDeleteBranchT (s : Sys) (tags : Tags) (d : Dest) : List OpT :=
+  let qdel := if s.remote.has (.q d) then [OpT.br (.delete (.q d))] else []
+  match s.remote.get (.dest d) with
+  | none => qdel
+  | some c =>
+    match Tags.get tags d with
+    | none => qdel ++ [OpT.tag d c, OpT.br (.delete (.dest d))]
+    | some t => if t = c then qdel ++ [OpT.br (.delete (.dest d))] else []
 
 /-- The remote's reaction. A tag that already exists makes `git tag` fail, a refused tag push makes
     `git push` fail: either raises `JobFailure` — the remaining operations are NOT executed.
@@ -119,9 +128,10 @@ def kindT : OpT → String
   | .br _ => "push"
   | .tag _ _ => "push-tag"
 
-/-- Every Bert-E job as a list of operations on branches and tags -/
-def planT (s : Sys) : Event → List OpT
-  | .deleteBranch d => planDeleteBranchT s d
+/-- Every Bert-E job as a list of operations on branches and tags (`tags`: the archive tags of the remote when the
+    job starts; only the delete-branch job looks at them) -/
+def planT (s : Sys) (tags : Tags) : Event → List OpT
+  | .deleteBranch d => planDeleteBranchT s tags d
   | ev => (plan s ev).ops.map OpT.br
 
 def isRobotEv : Event → Bool
